@@ -54,6 +54,7 @@ type FuncSpec struct {
 	Ensures  []*Clause
 	Modifies []*Clause
 	HasMod   bool
+	ModHeap  bool // modifies heap: every non-ghost component may change
 	Panics   string // "", "never", "may"
 	Pure     bool
 	Assumed  bool
@@ -139,8 +140,8 @@ func newSpecDB0() *SpecDB {
 }
 
 var clauseKw = map[string]bool{"requires": true, "ensures": true, "modifies": true, "panics": true, "props": true,
-	"loop": true, "invariant": true, "pure": true, "stable": true, "assumed": true, "concurrent": true, "noinline": true, "unroll": true, "let": true, "decreases": true, "witness": true, "replay": true, "case": true, "use": true, "objinv": true, "sets": true, "shared": true, "onwrite": true}
-var topKw = map[string]bool{"poolinv": true, "ilemma": true, "func": true, "iface": true, "callback": true, "ghost": true, "spec": true, "lemma": true}
+	"loop": true, "invariant": true, "pure": true, "stable": true, "assumed": true, "concurrent": true, "noinline": true, "unroll": true, "let": true, "decreases": true, "witness": true, "replay": true, "case": true, "use": true, "objinv": true, "sets": true, "shared": true, "onwrite": true, "always": true}
+var topKw = map[string]bool{"poolinv": true, "ilemma": true, "func": true, "extern": true, "iface": true, "callback": true, "ghost": true, "spec": true, "lemma": true}
 
 func firstWord(s string) (string, string) {
 	s = strings.TrimSpace(s)
@@ -282,8 +283,13 @@ func (db *SpecDB) loadFile(path, pkgPath string) error {
 			}
 			db.Lemmas = append(db.Lemmas, lm)
 			cur, curLemma = nil, lm
-		case "func", "iface", "callback":
+		case "func", "iface", "callback", "extern":
 			fs, err := parseHeader(strings.TrimSpace(rest), pkgPath, w == "iface")
+			if err == nil && w == "extern" {
+				// a function of another module (standard library, dependency): the name is the full key, the contract is assumed
+				fs.Key = strings.TrimPrefix(fs.Key, pkgPath+".")
+				fs.Assumed = true
+			}
 			if err == nil && w == "callback" {
 				fs.Key += ".call"
 				fs.IsCallback = true
@@ -481,12 +487,28 @@ func (db *SpecDB) loadFile(path, pkgPath string) error {
 				}
 				cur.Requires = append(cur.Requires, &Clause{Kind: "objinv", Label: label, Text: body, Expr: e, Line: it.line, File: path, Props: props})
 				curLoop = nil
+			case "always":
+				// like ensures, but also holds when the callee panics (e.g. "this call was made")
+				label, props, body := parseLabel(rest)
+				e, err := parseExpr(body)
+				if err != nil {
+					return fail(err.Error())
+				}
+				cur.Ensures = append(cur.Ensures, &Clause{Kind: "always", Label: label, Text: body, Expr: e, Line: it.line, File: path, Props: props})
+				curLoop = nil
 			case "requires", "ensures", "invariant", "modifies":
 				label, props, body := parseLabel(rest)
 				c := &Clause{Kind: w, Label: label, Text: body, Line: it.line, File: path, Props: props}
 				if w == "modifies" {
 					if body != "nothing" {
 						for _, part := range splitTop(body) {
+							if part == "heap" {
+								// the whole real heap may change; ghost state only as listed
+								if curLoop == nil {
+									cur.ModHeap = true
+								}
+								continue
+							}
 							e, err := parseExpr(part)
 							if err != nil {
 								return fail(err.Error())
